@@ -1,8 +1,549 @@
-//! C20 — not implemented yet.
+//! C20 — a deployed model may be evaluated from many threads with per-call results intact.
+//!
+//! One generated model (numeric, temporal, regular-expression and decision-table heavy
+//! invocables, a chain of required decisions, a business knowledge model, a decision service)
+//! is built once; `Arc<ModelEvaluator>` is then shared by 2..16 threads, each performing a
+//! sequence of `evaluate_invocable` calls with randomised start barriers, yields and call
+//! orders.  Every result is compared with the sequential result of the same call; a watchdog
+//! turns a hang into a "deadlock" observation; afterwards the evaluator must still answer
+//! (no poisoned lock).  The driver reports the checks of the regenerated synchronisation
+//! table and runs the interleaving semantics on the abstract lock shape of every round.
 
-use crate::report::Report;
+use crate::model::Model;
+use crate::report::{Kind, Report};
+use crate::rng::Rng;
+use crate::sexp::Sexp;
+use crate::util::guarded;
 use crate::Cfg;
+use dmntk_feel::context::FeelContext;
+use dmntk_feel::values::Value;
+use dmntk_feel::Scope;
+use dmntk_model_evaluator::ModelEvaluator;
+use serde_json::json;
+use std::sync::mpsc;
+use std::sync::{Arc, Barrier};
+use std::time::{Duration, Instant};
 
-pub fn run(_cfg: &Cfg) -> Report {
-  Report::new("C20", "not implemented")
+/// One invocable of the generated model: name, kind, the nesting of read-lock acquisitions
+/// its evaluation performs (for the abstract program), and a generator of inputs.
+struct Invocable {
+  name: String,
+  kind: &'static str,
+  /// registries read-locked on the way (abstract shape only; numbers name the locks)
+  locks: Vec<u64>,
+}
+
+fn xml_escape(s: &str) -> String {
+  s.replace('&', "&amp;").replace('<', "&lt;").replace('>', "&gt;").replace('"', "&quot;")
+}
+
+fn decision(name: &str, type_ref: &str, requirements: &[(&str, &str)], text: &str) -> String {
+  let reqs: String = requirements
+    .iter()
+    .map(|(kind, href)| match *kind {
+      "input" => format!("<informationRequirement><requiredInput href=\"#{}\"/></informationRequirement>", href),
+      "decision" => format!("<informationRequirement><requiredDecision href=\"#{}\"/></informationRequirement>", href),
+      _ => format!("<knowledgeRequirement><requiredKnowledge href=\"#{}\"/></knowledgeRequirement>", href),
+    })
+    .collect();
+  let tr = if type_ref.is_empty() { String::new() } else { format!(" typeRef=\"{}\"", type_ref) };
+  format!(
+    "<decision name=\"{n}\" id=\"_{n}\"><variable name=\"{n}\"{tr}/>{reqs}<literalExpression><text>{text}</text></literalExpression></decision>\n",
+    n = name,
+    tr = tr,
+    reqs = reqs,
+    text = xml_escape(text)
+  )
+}
+
+/// The generated model; constants vary with the seed.
+fn generate_model(rng: &mut Rng) -> (String, Vec<Invocable>) {
+  let mut x = String::new();
+  let mut inv = vec![];
+  x.push_str("<inputData name=\"n\" id=\"_n\"><variable name=\"n\" typeRef=\"number\"/></inputData>\n");
+  x.push_str("<inputData name=\"s\" id=\"_s\"><variable name=\"s\" typeRef=\"string\"/></inputData>\n");
+  x.push_str("<inputData name=\"d\" id=\"_d\"><variable name=\"d\" typeRef=\"string\"/></inputData>\n");
+  // locks: 0 invocable_by_name, 1 decision registry, 2 knowledge models, 3 decision services, 4 input data, 5 item definitions
+  let dec_locks = vec![0, 2, 3, 1, 4, 5];
+  // numeric
+  let (a, b, c) = (20 + rng.below(60), 2 + rng.below(7), 1 + rng.below(9));
+  x.push_str(&decision(
+    "Num1",
+    "number",
+    &[("input", "_n")],
+    &format!("sum(for i in 1..{a} return (i * i + n) / {b}) + sqrt(n * n + {c}) - decimal(n / {b}, 3) + floor(n) ** 2", a = a, b = b, c = c),
+  ));
+  inv.push(Invocable { name: "Num1".into(), kind: "numeric", locks: dec_locks.clone() });
+  x.push_str(&decision(
+    "Num2",
+    "number",
+    &[("input", "_n")],
+    &format!("mean(for i in 1..{a} return i * n) + max([n, {b}, {c}]) * modulo(n + {a}, {b} + 1) + abs(n - {c}) + exp(1) + log({b} + 1)", a = 10 + rng.below(40), b = b, c = c),
+  ));
+  inv.push(Invocable { name: "Num2".into(), kind: "numeric", locks: dec_locks.clone() });
+  // temporal
+  let (days, hours, months) = (1 + rng.below(40), 1 + rng.below(23), 1 + rng.below(30));
+  x.push_str(&decision(
+    "Tmp1",
+    "",
+    &[("input", "_d"), ("input", "_n")],
+    &format!(
+      "[string(date(d) + duration(\"P{days}D\")), string(date and time(d + \"T10:20:30\") + duration(\"P{days}DT{hours}H\")), string(date(d) + duration(\"P{months}M\")), date(d).year * 10000 + date(d).month * 100 + date(d).day, string(date and time(d + \"T23:59:59@Europe/Warsaw\")), string(time(\"10:20:30+0{tz}:00\")), string(years and months duration(date(\"2000-01-31\"), date(d))), string(date(d) - date(\"1999-12-31\"))]",
+      days = days,
+      hours = hours,
+      months = months,
+      tz = rng.below(9)
+    ),
+  ));
+  inv.push(Invocable { name: "Tmp1".into(), kind: "temporal", locks: dec_locks.clone() });
+  // regular expressions
+  let rx = *rng.pick(&["^[a-c]+[0-9]*$", "a+b*", "(ab)+", "^.{3,}$", "[0-9]{2}", "b.a"]);
+  x.push_str(&decision(
+    "Rgx1",
+    "",
+    &[("input", "_s")],
+    &format!(
+      "[matches(s, \"{rx}\"), replace(s, \"(a+)(b*)\", \"$2-$1\"), replace(s, \"[0-9]\", \"#\"), matches(s, \"^[A-Z]\", \"i\"), split(s, \"[0-9]+\"), upper case(s), string length(s), substring(s, 2, 3), contains(s, \"ab\")]",
+      rx = rx
+    ),
+  ));
+  inv.push(Invocable { name: "Rgx1".into(), kind: "regex", locks: dec_locks.clone() });
+  // decision table
+  let (t1, t2, t3) = (5 + rng.below(10), 20 + rng.below(20), 50 + rng.below(40));
+  let hp = *rng.pick(&["UNIQUE", "FIRST", "ANY", "PRIORITY"]);
+  let mut rules = String::new();
+  let bands = [
+    (format!("< {}", t1), "\"a\"".to_string(), "\"low\"".to_string()),
+    (format!("[{}..{})", t1, t2), "-".to_string(), "\"mid\"".to_string()),
+    (format!("[{}..{}]", t2, t3), "\"ab\", \"abc\", \"aab1\"".to_string(), "\"high\"".to_string()),
+    (format!("[{}..{}]", t2, t3), "not(\"ab\", \"abc\", \"aab1\")".to_string(), "\"high-other\"".to_string()),
+    (format!("> {}", t3), "-".to_string(), "\"top\"".to_string()),
+    (format!("< {}", t1), "not(\"a\")".to_string(), "\"low-other\"".to_string()),
+  ];
+  for (i, (n_test, s_test, out)) in bands.iter().enumerate() {
+    rules.push_str(&format!(
+      "<rule id=\"_r{}\"><inputEntry><text>{}</text></inputEntry><inputEntry><text>{}</text></inputEntry><outputEntry><text>{}</text></outputEntry></rule>",
+      i,
+      xml_escape(n_test),
+      xml_escape(s_test),
+      xml_escape(out)
+    ));
+  }
+  x.push_str(&format!(
+    "<decision name=\"Tbl1\" id=\"_Tbl1\"><variable name=\"Tbl1\" typeRef=\"string\"/><informationRequirement><requiredInput href=\"#_n\"/></informationRequirement><informationRequirement><requiredInput href=\"#_s\"/></informationRequirement><decisionTable hitPolicy=\"{hp}\" outputLabel=\"Tbl1\"><input id=\"_i1\" label=\"n\"><inputExpression typeRef=\"number\"><text>n</text></inputExpression></input><input id=\"_i2\" label=\"s\"><inputExpression typeRef=\"string\"><text>s</text></inputExpression></input><output id=\"_o1\" name=\"Tbl1\" typeRef=\"string\"><outputValues><text>\"top\", \"high\", \"high-other\", \"mid\", \"low\", \"low-other\"</text></outputValues></output>{rules}</decisionTable></decision>\n",
+    hp = hp,
+    rules = rules
+  ));
+  inv.push(Invocable { name: "Tbl1".into(), kind: "table", locks: dec_locks.clone() });
+  // collect table with aggregation
+  let mut rules2 = String::new();
+  for i in 0..12u64 {
+    rules2.push_str(&format!(
+      "<rule id=\"_c{}\"><inputEntry><text>&gt;= {}</text></inputEntry><outputEntry><text>{}</text></outputEntry></rule>",
+      i,
+      i * (1 + rng.below(9)),
+      1 + rng.below(50)
+    ));
+  }
+  x.push_str(&format!(
+    "<decision name=\"Tbl2\" id=\"_Tbl2\"><variable name=\"Tbl2\" typeRef=\"number\"/><informationRequirement><requiredInput href=\"#_n\"/></informationRequirement><decisionTable hitPolicy=\"COLLECT\" aggregation=\"SUM\" outputLabel=\"Tbl2\"><input id=\"_j1\" label=\"n\"><inputExpression typeRef=\"number\"><text>n</text></inputExpression></input><output id=\"_p1\" name=\"Tbl2\" typeRef=\"number\"/>{}</decisionTable></decision>\n",
+    rules2
+  ));
+  inv.push(Invocable { name: "Tbl2".into(), kind: "table", locks: dec_locks.clone() });
+  // knowledge model and a chain of required decisions (nested read acquisitions)
+  x.push_str(&format!(
+    "<businessKnowledgeModel name=\"Bkm1\" id=\"_Bkm1\"><variable name=\"Bkm1\"/><encapsulatedLogic><formalParameter name=\"p\" typeRef=\"number\"/><formalParameter name=\"q\" typeRef=\"number\"/><literalExpression><text>{}</text></literalExpression></encapsulatedLogic></businessKnowledgeModel>\n",
+    xml_escape(&format!("sum(for k in 1..{} return p * k + q) / (q + 1)", 10 + rng.below(30)))
+  ));
+  let chain = 3 + rng.below(4);
+  x.push_str(&decision("Chn0", "number", &[("input", "_n"), ("knowledge", "_Bkm1")], "Bkm1(n, 3) + 1"));
+  for i in 1..=chain {
+    x.push_str(&decision(
+      &format!("Chn{}", i),
+      "number",
+      &[("decision", &format!("_Chn{}", i - 1)), ("decision", "_Tbl2"), ("input", "_n")],
+      &format!("Chn{} * {} + Tbl2 + n", i - 1, 1 + rng.below(5)),
+    ));
+  }
+  let mut chain_locks = vec![];
+  for _ in 0..=chain {
+    chain_locks.extend_from_slice(&[2, 3, 1, 4, 5]);
+  }
+  let mut l = vec![0];
+  l.extend(chain_locks);
+  inv.push(Invocable { name: format!("Chn{}", chain), kind: "chain", locks: l.clone() });
+  inv.push(Invocable { name: "Bkm1".into(), kind: "knowledge", locks: vec![0, 2] });
+  // decision service over the chain
+  x.push_str(&format!(
+    "<decisionService name=\"Svc1\" id=\"_Svc1\"><variable name=\"Svc1\"/><outputDecision href=\"#_Chn{}\"/><outputDecision href=\"#_Tbl1\"/><inputData href=\"#_n\"/><inputData href=\"#_s\"/></decisionService>\n",
+    chain
+  ));
+  let mut sl = vec![0, 3];
+  sl.extend(l.iter().skip(1));
+  inv.push(Invocable { name: "Svc1".into(), kind: "service", locks: sl });
+  let xml = format!(
+    "<?xml version=\"1.0\" encoding=\"UTF-8\"?>\n<definitions namespace=\"https://verif/c20\" name=\"c20\" id=\"_c20\" xmlns=\"https://www.omg.org/spec/DMN/20191111/MODEL/\">\n{}</definitions>",
+    x
+  );
+  (xml, inv)
+}
+
+/// Null messages are not compared; everything else by its FEEL text.
+fn canon(v: &Value) -> String {
+  match v {
+    Value::Null(_) => "null".to_string(),
+    Value::List(items) => format!("[{}]", items.as_vec().iter().map(canon).collect::<Vec<_>>().join(", ")),
+    Value::Context(ctx) => format!("{{{}}}", ctx.iter().map(|(k, x)| format!("{}: {}", k, canon(x))).collect::<Vec<_>>().join(", ")),
+    Value::String(s) => format!("{:?}", s),
+    other => other.to_string(),
+  }
+}
+
+fn gen_input(rng: &mut Rng) -> String {
+  let n = match rng.below(6) {
+    0 => format!("{}", rng.below(100)),
+    1 => format!("{}.{}", rng.below(100), rng.below(1000)),
+    2 => format!("(-{})", rng.below(50)),
+    3 => format!("{}", rng.below(10)),
+    4 => format!("{}.5", rng.below(60)),
+    _ => format!("{}", 10 + rng.below(90)),
+  };
+  let s = *rng.pick(&["a", "ab", "abc", "aab1", "Zebra42", "aaabbb77cc", "", "baa", "x9y8"]);
+  let d = format!("{}-{:02}-{:02}", 1990 + rng.below(60), 1 + rng.below(12), 1 + rng.below(28));
+  format!("{{n: {}, s: \"{}\", d: \"{}\", p: {}, q: {}}}", n, s, d, rng.below(20), rng.below(20))
+}
+
+struct Call {
+  invocable: usize,
+  input_text: String,
+  input: FeelContext,
+  expected: String,
+}
+
+enum Msg {
+  Done(usize, Vec<(usize, String)>),
+}
+
+pub fn run(cfg: &Cfg) -> Report {
+  let mut rep = Report::new(
+    "C20",
+    "rounds: one shared Arc<ModelEvaluator>, 2..16 threads, each a randomly ordered sequence of evaluate_invocable calls over numeric / temporal / regular-expression / decision-table / chained / knowledge-model / decision-service invocables with generated inputs; randomised barriers, yields and spins. Non-trivial: at least two threads and at least two kinds of invocable in the round; distinct by (threads, call sequence) description.",
+  );
+  let mut rng = Rng::new(cfg.seed);
+  let mut model = Model::start(&cfg.driver);
+  // the regenerated table, as the driver sees it
+  let table = model.ask("(c20 table)");
+  rep.extra.insert("shared_state_table".into(), json!(table));
+  if let Some(t) = Sexp::parse(&table) {
+    for key in ["readOnly", "closed", "globals", "ffi", "sendSync"] {
+      let ok = t.as_list().map(|l| l.iter().any(|p| p.to_string() == format!("({} true)", key))).unwrap_or(false);
+      if !ok {
+        rep.notes.push(format!("the synchronisation table fails the check '{}': {}", key, table));
+        rep.hit(&format!("table-check-failed:{}", key));
+      }
+    }
+  }
+  let thorough = cfg.tier == "thorough";
+  let rounds = if thorough { 20_000 } else { 200 };
+  let models_to_build = if thorough { 20 } else { 4 };
+  let rounds_per_model = rounds / models_to_build;
+  let budget = Duration::from_secs(if thorough { 5400 } else { 120 });
+  let t_start = Instant::now();
+  let mut total_calls = 0u64;
+  let mut rounds_done = 0u64;
+  let mut hung = false;
+
+  'models: for mi in 0..models_to_build {
+    let (xml, invocables) = generate_model(&mut rng);
+    let built = guarded(|| dmntk_model::parse(&xml).map_err(|e| e.to_string()).and_then(|d| ModelEvaluator::new(&d).map_err(|e| e.to_string())));
+    let me: Arc<ModelEvaluator> = match built {
+      Ok(Ok(me)) => me,
+      other => {
+        let why = match other {
+          Ok(Err(e)) => e,
+          Err(p) => format!("panic: {}", p),
+          _ => String::new(),
+        };
+        rep.disagree(Kind::ImplVsModel, "stress", "the generated model does not build", &xml, &why, "a model evaluator");
+        continue;
+      }
+    };
+    // the table of calls with their sequential results
+    let mut calls: Vec<Call> = vec![];
+    let n_calls = 40 + rng.below(40) as usize;
+    for _ in 0..n_calls {
+      let invocable = rng.below(invocables.len() as u64) as usize;
+      let input_text = gen_input(&mut rng);
+      let input = match dmntk_feel_evaluator::evaluate_context(&Scope::default(), &input_text) {
+        Ok(c) => c,
+        Err(_) => continue,
+      };
+      let name = invocables[invocable].name.clone();
+      let first = guarded(|| canon(&me.evaluate_invocable(&name, &input)));
+      let second = guarded(|| canon(&me.evaluate_invocable(&name, &input)));
+      let expected = match (first, second) {
+        (Ok(a), Ok(b)) if a == b => a,
+        (Err(_), Err(_)) => "panic".to_string(),
+        (a, b) => {
+          rep.disagree(
+            Kind::ImplVsSpec,
+            "sequential",
+            "two sequential evaluations of the same call differ",
+            &format!("{} {}", name, input_text),
+            &format!("{:?}", a),
+            &format!("{:?}", b),
+          );
+          continue;
+        }
+      };
+      rep.hit(&format!("call:{}:{}", invocables[invocable].kind, if expected == "null" { "null" } else if expected == "panic" { "panic" } else { "value" }));
+      calls.push(Call { invocable, input_text, input, expected });
+    }
+    if mi == 0 {
+      for c in calls.iter().take(6) {
+        rep.sample(json!({"invocable": invocables[c.invocable].name, "input": c.input_text, "sequential_result": c.expected}));
+      }
+    }
+    let calls = Arc::new(calls);
+
+    for _round in 0..rounds_per_model {
+      if t_start.elapsed() > budget {
+        rep.notes.push(format!("time budget reached after {} rounds", rounds_done));
+        break 'models;
+      }
+      let threads = 2 + rng.below(15) as usize;
+      let use_barrier = rng.chance(3, 4);
+      let barrier = Arc::new(Barrier::new(if use_barrier { threads } else { 1 }));
+      let (tx, rx) = mpsc::channel::<Msg>();
+      let mut plan: Vec<Vec<usize>> = vec![];
+      let mut kinds = std::collections::BTreeSet::new();
+      // sometimes every thread hammers the same call, sometimes all differ
+      let mode = rng.below(4);
+      let hot = rng.below(calls.len() as u64) as usize;
+      for _ in 0..threads {
+        let k = 1 + rng.below(if thorough { 40 } else { 24 }) as usize;
+        let seq: Vec<usize> = (0..k)
+          .map(|_| match mode {
+            0 => hot,
+            1 => {
+              if rng.chance(1, 2) {
+                hot
+              } else {
+                rng.below(calls.len() as u64) as usize
+              }
+            }
+            _ => rng.below(calls.len() as u64) as usize,
+          })
+          .collect();
+        for &c in &seq {
+          kinds.insert(invocables[calls[c].invocable].kind);
+        }
+        plan.push(seq);
+      }
+      let mut handles = vec![];
+      for (ti, seq) in plan.iter().enumerate() {
+        let me = Arc::clone(&me);
+        let calls = Arc::clone(&calls);
+        let names: Vec<String> = invocables.iter().map(|i| i.name.clone()).collect();
+        let seq = seq.clone();
+        let tx = tx.clone();
+        let barrier = Arc::clone(&barrier);
+        let mut trng = rng.fork();
+        let wait = use_barrier;
+        let h = std::thread::Builder::new().stack_size(8 << 20).spawn(move || {
+          if wait {
+            barrier.wait();
+          } else {
+            for _ in 0..trng.below(2000) {
+              std::hint::spin_loop();
+            }
+          }
+          let mut out = vec![];
+          for c in seq {
+            match trng.below(4) {
+              0 => std::thread::yield_now(),
+              1 => {
+                for _ in 0..trng.below(500) {
+                  std::hint::spin_loop();
+                }
+              }
+              _ => {}
+            }
+            let call = &calls[c];
+            // every thread evaluates with its own copy of the input
+            let input = call.input.clone();
+            let r = match guarded(|| canon(&me.evaluate_invocable(&names[call.invocable], &input))) {
+              Ok(v) => v,
+              Err(_) => "panic".to_string(),
+            };
+            out.push((c, r));
+          }
+          let _ = tx.send(Msg::Done(ti, out));
+        });
+        match h {
+          Ok(h) => handles.push(h),
+          Err(e) => {
+            rep.notes.push(format!("could not spawn a thread: {}", e));
+          }
+        }
+      }
+      drop(tx);
+      let spawned = handles.len();
+      let describe = |plan: &Vec<Vec<usize>>| -> String {
+        plan
+          .iter()
+          .map(|seq| seq.iter().map(|&c| format!("{}#{}", invocables[calls[c].invocable].name, c)).collect::<Vec<_>>().join(","))
+          .collect::<Vec<_>>()
+          .join(" | ")
+      };
+      let key = format!("model {} threads {} barrier {} : {}", mi, threads, use_barrier, describe(&plan));
+      // watchdog
+      let deadline = Instant::now() + Duration::from_secs(30);
+      let mut finished = 0usize;
+      let mut results: Vec<(usize, Vec<(usize, String)>)> = vec![];
+      while finished < spawned {
+        let left = deadline.saturating_duration_since(Instant::now());
+        match rx.recv_timeout(left) {
+          Ok(Msg::Done(ti, out)) => {
+            finished += 1;
+            results.push((ti, out));
+          }
+          Err(mpsc::RecvTimeoutError::Timeout) => {
+            rep.disagree(
+              Kind::ImplVsSpec,
+              "no_blocking",
+              "deadlock: concurrent evaluations did not finish within 30 s",
+              &format!("seed {} {}", cfg.seed, key),
+              &format!("{} of {} threads finished", finished, spawned),
+              "all threads finish",
+            );
+            hung = true;
+            break;
+          }
+          Err(mpsc::RecvTimeoutError::Disconnected) => {
+            // a thread ended without reporting (it died outside catch_unwind)
+            rep.disagree(
+              Kind::ImplVsSpec,
+              "stress",
+              "a thread ended without reporting its results",
+              &format!("seed {} {}", cfg.seed, key),
+              &format!("{} of {} threads reported", finished, spawned),
+              "every thread reports",
+            );
+            break;
+          }
+        }
+      }
+      if hung {
+        // stuck threads cannot be killed: stop here (the process ends with the report)
+        rep.case(&key, true);
+        break 'models;
+      }
+      for h in handles {
+        let _ = h.join();
+      }
+      rounds_done += 1;
+      rep.case(&key, threads >= 2 && kinds.len() >= 2);
+      rep.hit(&format!("threads:{}", if threads <= 4 { "2-4" } else if threads <= 8 { "5-8" } else { "9-16" }));
+      rep.hit(&format!("mode:{}", ["same-call", "half-hot", "mixed", "mixed"][mode as usize]));
+      for (ti, out) in &results {
+        for (c, r) in out {
+          total_calls += 1;
+          let call = &calls[*c];
+          if *r != call.expected {
+            let what = if r == "panic" { "a concurrent evaluation panics where the sequential one does not" } else { "a concurrent evaluation returns a different value than the same call alone" };
+            rep.disagree(
+              Kind::ImplVsSpec,
+              "interleaving_independent",
+              what,
+              &format!("seed {} thread {} call {} {} ;; round: {}", cfg.seed, ti, invocables[call.invocable].name, call.input_text, key),
+              r,
+              &call.expected,
+            );
+          }
+        }
+      }
+      // the interleaving semantics on the abstract lock shape of this round (first threads only)
+      if rounds_done % 4 == 1 {
+        let progs: Vec<String> = plan
+          .iter()
+          .take(6)
+          .map(|seq| {
+            let mut acts = vec![];
+            for &c in seq.iter().take(4) {
+              let inv = &invocables[calls[c].invocable];
+              for l in &inv.locks {
+                acts.push(format!("(r {})", l));
+              }
+              acts.push(format!("(c {})", c));
+              for l in inv.locks.iter().rev() {
+                acts.push(format!("(u {})", l));
+              }
+            }
+            format!("({})", acts.join(" "))
+          })
+          .collect();
+        let total: usize = plan.iter().take(6).map(|s| s.iter().take(4).map(|&c| invocables[calls[c].invocable].locks.len() * 2 + 1).sum::<usize>()).sum();
+        let nt = progs.len() as u64;
+        let mut sched = vec![];
+        // random picks, then a round-robin tail that certainly finishes every thread
+        for _ in 0..total {
+          sched.push(rng.below(nt).to_string());
+        }
+        for _ in 0..total {
+          for t in 0..nt {
+            sched.push(t.to_string());
+          }
+        }
+        let sched: Vec<String> = sched.into_iter().take(total * 3 + 64 + (nt as usize) * total).collect();
+        let req = format!("(c20 run ({}) ({}))", progs.join(" "), sched.join(" "));
+        let ans = model.ask(&req);
+        let ok = Sexp::parse(&ans)
+          .and_then(|a| {
+            let l = a.as_list()?.to_vec();
+            let get = |tag: &str| l.iter().find(|p| p.as_list().and_then(|x| x.first()).and_then(|x| x.as_atom()) == Some(tag)).map(|p| p.to_string());
+            let results = get("results")?.replacen("results", "", 1);
+            let alone = get("alone")?.replacen("alone", "", 1);
+            Some(get("finished")? == "(finished true)" && get("blocked")? == "(blocked 0)" && results == alone)
+          })
+          .unwrap_or(false);
+        rep.hit("semantics-run");
+        if !ok {
+          rep.disagree(Kind::ImplVsModel, "semantics", "the interleaving semantics blocks or changes a result on a read-only round", &req, &ans, "finished, nobody blocked, results = alone");
+        }
+      }
+    }
+    // lock poisoning: the evaluator still answers every call as before
+    for call in calls.iter() {
+      let r = match guarded(|| canon(&me.evaluate_invocable(&invocables[call.invocable].name, &call.input))) {
+        Ok(v) => v,
+        Err(_) => "panic".to_string(),
+      };
+      if r != call.expected {
+        rep.disagree(
+          Kind::ImplVsSpec,
+          "poisoning",
+          "after the concurrent run an evaluation no longer returns its sequential result (poisoned lock?)",
+          &format!("seed {} model {} call {} {}", cfg.seed, mi, invocables[call.invocable].name, call.input_text),
+          &r,
+          &call.expected,
+        );
+      }
+    }
+  }
+  rep.extra.insert("rounds".into(), json!(rounds_done));
+  rep.extra.insert("concurrent_calls".into(), json!(total_calls));
+  rep.notes.push("oracle: the sequential run of the same call on the same evaluator (evaluated twice before the threads start, and once more after all rounds)".into());
+  rep.model_requests = model.requests;
+  if hung {
+    // threads are stuck in the implementation: write the report and leave without joining
+    let text = serde_json::to_string_pretty(&rep.to_json()).unwrap();
+    if cfg.report.is_empty() {
+      println!("{}", text);
+    } else {
+      let _ = std::fs::write(&cfg.report, text);
+    }
+    std::process::exit(0);
+  }
+  rep
 }
